@@ -6,6 +6,8 @@ from pyvc.api import *
 from props.prelude import *
 
 CLAIM = "proof"
+# (N) + (P) per state function => independence of every segmentation: generic induction, machine-checked in Lean
+LEAN_LEMMAS = [("Seg.lean", "L-SEG segmentation independence from no-op-when-incomplete + prefix determinism (Parser.feedAll_join)")]
 S = "mitmproxy.proxy.layers.modes:Socks5Proxy"
 OK_REPLY = b"\x05\x00\x00\x01\x00\x00\x00\x00\x00\x00"
 FAIL_REPLY = b"\x05\x04\x00\x01\x00\x00\x00\x00\x00\x00"
